@@ -1207,8 +1207,9 @@ func (g *G) varExpr(depth int, call bool) *Node {
 		if g.O.Fam == 5 || g.O.Common {
 			return base // PHP 5 applies the extra '$' to the whole reference that follows ($$a[0] is ${$a[0]})
 		}
-	case k == 1 && !g.O.Formatter:
-		e := g.exprTop(depth + 1)
+	case k == 1 && (!g.O.Formatter || g.php7()):
+		// (formatter programs: PHP 7 only — without the braces PHP 5 reads "$$a[0]" as "${$a[0]}", a recorded finding)
+		e := g.braceName(depth)
 		base = &Node{Kind: "ExprVariable", Kids: []Kid{one("Name", e)}, Parts: parts(t("$"), t("{"), e, t("}")), Prec: 100}
 	case k == 2 && depth < g.O.MaxDepth:
 		// static property A::$b
@@ -1253,9 +1254,9 @@ func (g *G) varExpr(depth int, call bool) *Node {
 		cls := g.classRef(depth)
 		as, ps := g.args(depth)
 		switch sk := g.R.Intn(8); {
-		case sk == 0 && !g.O.Formatter:
+		case sk == 0 && (!g.O.Formatter || g.php7()):
 			// A::{expr}()
-			e := g.exprTop(depth + 1)
+			e := g.braceName(depth)
 			base = &Node{Kind: "ExprStaticCall", Kids: []Kid{one("Class", cls), one("Call", e), list("Args", as)}, Parts: parts(cls, t("::"), t("{"), e, t("}"), ps), Prec: 100}
 		case sk == 1:
 			// A::$m(), A::$$m()
@@ -1327,9 +1328,9 @@ func (g *G) varExpr(depth int, call bool) *Node {
 				continue
 			}
 			as, ps := g.args(depth)
-			if g.R.Chance(1, 4) && !g.O.Formatter {
+			if g.R.Chance(1, 4) && (!g.O.Formatter || g.php7()) {
 				// ->{expr}(args)
-				e := g.exprTop(depth + 1)
+				e := g.braceName(depth)
 				base = &Node{Kind: "ExprMethodCall", Kids: []Kid{one("Var", base), one("Method", e), list("Args", as)}, Parts: parts(base, t("->"), t("{"), e, t("}"), ps), Prec: 100}
 				continue
 			}
@@ -1342,10 +1343,10 @@ func (g *G) varExpr(depth int, call bool) *Node {
 			m, _ := g.memberName()
 			base = &Node{Kind: "ExprMethodCall", Kids: []Kid{one("Var", base), one("Method", m), list("Args", as)}, Parts: parts(base, t("->"), m, ps), Prec: 100}
 		case 3: // ->{expr}
-			if g.O.Formatter {
+			if g.O.Formatter && !g.php7() {
 				continue
 			}
-			e := g.exprTop(depth + 1)
+			e := g.braceName(depth)
 			base = &Node{Kind: "ExprPropertyFetch", Kids: []Kid{one("Var", base), one("Prop", e)}, Parts: parts(base, t("->"), t("{"), e, t("}")), Prec: 100}
 		}
 	}
@@ -1387,6 +1388,15 @@ func hasCall(n *Node) bool {
 		n = next
 	}
 	return false
+}
+
+// braceName: the expression of a ${..} / ->{..} / ::{..} name. The formatter drops the braces (a recorded finding
+// for general expressions); around a plain variable that keeps the meaning, so formatter programs use only that.
+func (g *G) braceName(depth int) *Node {
+	if g.O.Formatter {
+		return g.simpleVar()
+	}
+	return g.exprTop(depth + 1)
 }
 
 // dim wraps base into a dimension fetch, written with brackets or (1 in 6, where the grammar has it) braces.
